@@ -1962,7 +1962,10 @@ process(PseudoTcpSocket *self, Segment *seg)
   if (seg->seq != priv->rcv_nxt) {
     sflags = sfDuplicateAck; // (Fast Recovery)
   } else if (seg->len != 0) {
-    if (priv->ack_delay == 0) {
+    /* A segment which completes the stream up to the peer's FIN acknowledges
+     * that FIN: like a bare FIN it is acknowledged at once (this socket may
+     * leave TIME-WAIT before a delayed ACK is due). */
+    if (priv->ack_delay == 0 || received_fin) {
       sflags = sfImmediateAck;
     } else {
       sflags = sfDelayedAck;
